@@ -166,8 +166,8 @@ def run(ctx, build):
     from nobodd import tftp
     R = ctx.try_runner('Tftp')
     rng = ctx.rng
-    n_val = 6000 if ctx.thorough else 1500
-    n_fuzz = 30000 if ctx.thorough else 6000
+    n_val = 60000 if ctx.thorough else 1500
+    n_fuzz = 300000 if ctx.thorough else 6000
     if ctx.widen:
         n_val *= 2; n_fuzz *= 2
 
@@ -298,7 +298,7 @@ def run(ctx, build):
         ctx.case(('str', z), True, 'str_of_Z')
         if got != str(z).encode():
             ctx.violation('model/str_of_Z', f'model str({z}) = {got}', dict(api='str_of_Z', z=z))
-    for _ in range(1500 if not ctx.thorough else 6000):
+    for _ in range(1500 if not ctx.thorough else 60000):
         if rng.random() < 0.5:
             b = ''.join(chr(rng.choice([0x41, 0x7f, 0x80, 0x7ff, 0x800, 0xd7ff, 0xe000, 0xffff, 0x10000, 0x10ffff, rng.randint(0, 0x10ffff)]))
                         for _ in range(rng.randint(0, 4))).encode('utf-8', 'surrogatepass')
